@@ -53,6 +53,11 @@ def corpus():
     for i in range(1, 6):
         nest += "struct L%d { L%d[65535] a; };\n" % (i, i - 1)
     out.append(("usize_overflow", nest + "interface I { method f(in L5 x); };\n"))
+    # struct sizes around 2^16, 2^31 and 2^32 built from in-range array counts: both builds must agree
+    out.append(("size_just_below_2_32", "struct Page { uint64[65535] words; };\nstruct Region { Page[8192] pages; };\ninterface IR { method f(in Region[] r); };\n"))
+    out.append(("size_above_2_32", "struct Page { uint64[65535] words; };\nstruct Region { Page[8193] pages; };\ninterface IR { method f(in Region[] r); };\n"))
+    out.append(("size_above_2_31", "struct Page { uint64[65535] words; };\nstruct Region { Page[4097] pages; };\ninterface IR { method f(in Region[] r); };\n"))
+    out.append(("size_2_16", "struct Page { uint8[65535] b; uint8 c; };\nstruct Two { Page a; Page b; };\n"))
     out.append(("count_wrap", "interface I { method f(in interface[200] a, in interface p0, " +
                 ", ".join("in interface p%d" % i for i in range(1, 60)) + "); };\n".replace("in interface p0, ", "")))
     out.append(("count_sum_wrap", "struct B { uint64 a; uint64 b; interface o; };\ninterface I { method f(%s); };\n" %
